@@ -30,6 +30,7 @@ func c07(c *Ctx) {
 	c07mirror(c)
 	c07alloc(c)
 	c07free(c)
+	c07events(c)
 
 	r.Rule("LOCK(write side): every write of nodeDevice.{deviceTotal,deviceFree,deviceUsed,allocateSet,vfAllocations} happens under nodeDevice.lock held for writing or on an object just created by newNodeDevice (filter works on such a copy); helpers pass the requirement to their callers. Reads are not claimed: allocators reach the object through a struct field, which access-path locksets cannot relate to the lock taken by the plugin")
 	c.RunLock("LOCK", LockCfg{Pkg: devPkg, Type: "nodeDevice", Mutex: "lock", WriteOnly: true,
@@ -451,4 +452,59 @@ func c07free(c *Ctx) {
 		}
 	}
 	r.Check(okRet, "PATH", key+"/required=>capped-view", c.Pos(fn.Pos()), "with required amounts only the capped view is returned", "with required (reserved) device amounts the uncapped free view can be returned: a pod allocating from a reservation could take more than the reservation holds")
+}
+
+// c07events: what the informer handler releases and what the GPU allocator may consider.
+func c07events(c *Ctx) {
+	r := c.R
+	r.Rule("PATH(release of the old version): in nodeDeviceCache.updatePod the release updateCacheUsed(<old allocations>, oldPod, false) is dominated by oldPod != nil and oldPod.Spec.NodeName != \"\" (an unassigned old version holds nothing in the cache; its annotation may be stale and would be subtracted from another pod's device)")
+	if fn := c.Fn(devPkg, "nodeDeviceCache", "updatePod"); fn != nil {
+		old := fn.Params[1]
+		n := 0
+		for _, cl := range an.Calls(fn, false) {
+			if an.ShortCallee(cl.Common()) != "updateCacheUsed" || !isFalseConst(cl.Common().Args[3]) || cl.Common().Args[2] != ssa.Value(old) {
+				continue
+			}
+			n++
+			nonNil, assigned := false, false
+			for _, g := range an.Guards(cl) {
+				rel, ok := an.RelOf(g)
+				if !ok || rel.Op != token.NEQ {
+					continue
+				}
+				if rel.X == ssa.Value(old) && an.IsNilConst(rel.Y) {
+					nonNil = true
+				}
+				if str, isC := constString(rel.Y); isC && str == "" && strings.HasSuffix(an.Path(rel.X), ".Spec.NodeName") {
+					for x := range backwardAll(rel.X) {
+						if x == ssa.Value(old) {
+							assigned = true
+						}
+					}
+				}
+			}
+			r.Check(nonNil && assigned, "PATH", fkey(fn)+"/release-old<=old-was-assigned", c.InstrPos(cl), "only an assigned old version is released", sprintf("the old version's allocations are released without the tests oldPod != nil (%v) and oldPod.Spec.NodeName != \"\" (%v): a stale annotation on a pod that was never accounted is subtracted from whoever holds those devices", nonNil, assigned))
+		}
+		r.Floor("PATH", "old-version releases in updatePod", n, 1)
+	}
+	r.Rule("FLOW(usable GPUs): the deviceTotal handed to the GPU allocation context comes from removeZeroDevice(..) (unhealthy devices report an empty resource list, and LessThanOrEqual(request, {}) holds vacuously, so membership in the filtered totals is what keeps them out)")
+	if fn := c.Fn(devPkg, "GPUAllocator", "Allocate"); fn != nil {
+		n := 0
+		for _, b := range fn.Blocks {
+			for _, in := range b.Instrs {
+				st, ok := in.(*ssa.Store)
+				if !ok {
+					continue
+				}
+				owner, f, _, isF := an.FieldOf(st.Addr)
+				if !isF || f != "deviceTotal" || !strings.HasSuffix(owner, "AllocateContext") {
+					continue
+				}
+				n++
+				call, _ := an.ResultOfCall(st.Val)
+				r.Check(call != nil && an.ShortCallee(&call.Call) == "removeZeroDevice", "FLOW", fkey(fn)+"/context-total-without-zero-devices", c.InstrPos(st), "zero-capacity devices are filtered out of the context", "AllocateContext.deviceTotal is filled from "+an.Path(st.Val)+" instead of removeZeroDevice(..): an unhealthy GPU can be chosen")
+			}
+		}
+		r.Floor("FLOW", "AllocateContext.deviceTotal stores", n, 1)
+	}
 }
